@@ -1,5 +1,5 @@
 (* C08 - encoding of the model's option namespaces (OptProj.ns) as kernel values (PyK.kv);
-   shared by the kernel theorems K3 and K9, independent of any generated file. *)
+   shared by the kernel theorems K3 and K14, independent of any generated file. *)
 From Coq Require Import List String Ascii ZArith Bool.
 From Verif Require Import Regex PyK OptProj.
 Import ListNotations.
